@@ -224,11 +224,29 @@ def write_evidence(pid, tier, seed, results, all_obs, bounded, known_hits, viola
             trusted.add(t)
     proved = [o for o in all_obs if o['status'] == 'proved']
     kh = [id(o) for _, o in known_hits]
+    # every named (property-level) obligation and everything that is not proved is listed individually; the generated support
+    # obligations (bounds, pointer, overflow, frame, loop-contract checks) are summarised per job / check class / back end
     obs_out = []
+    support_summary = {}
     for o in all_obs:
-        obs_out.append(dict(name=o.get('name'), cbmc_id=o['id'], kind=o['kind'], status=('known-finding' if id(o) in kh else o['status']),
-                            backend=o.get('backend'), solver=o.get('solver'), solver_s=round(o.get('secs', 0), 2), real=o.get('real'),
-                            job=o['job'], at=o['loc'], what=o['description'][:160]))
+        st = 'known-finding' if id(o) in kh else o['status']
+        if o['kind'] == 'property' or st != 'proved' or o.get('name'):
+            obs_out.append(dict(name=o.get('name'), cbmc_id=o['id'], kind=o['kind'], status=st,
+                                backend=o.get('backend'), solver=o.get('solver'), solver_s=round(o.get('secs', 0), 2), real=o.get('real'),
+                                job=o['job'], at=o['loc'], what=o['description'][:160]))
+        else:
+            cls = re.sub(r'\.\d+$', '', o['id'].split('.', 1)[1] if '.' in o['id'] else o['id'])
+            k = (o['job'], cls, o.get('solver') or '', o.get('real') or '')
+            e = support_summary.setdefault(k, dict(job=k[0], check_class=k[1], solver=k[2], real=k[3], status='proved', count=0, solver_s=0.0))
+            e['count'] += 1
+            e['solver_s'] = round(e['solver_s'] + (o.get('secs') or 0), 2)
+    support_out = sorted(support_summary.values(), key=lambda e: (e['job'], e['check_class'], e['solver']))
+    bounded_out = [dict(name=o.get('name'), status=o['status'], job=o['job'], what=o['description'][:160]) for o in bounded if o['kind'] == 'property' or o['status'] != 'proved' or o.get('name')]
+    bsum = {}
+    for o in bounded:
+        if not (o['kind'] == 'property' or o['status'] != 'proved' or o.get('name')):
+            bsum[o['job']] = bsum.get(o['job'], 0) + 1
+    bounded_out += [dict(name=None, status='proved', job=j, what='%d generated support obligations (bounds, pointer, overflow, unwinding assertions) of this bounded job' % n) for j, n in sorted(bsum.items())]
     samples = [dict(name=o.get('name'), what=o['description'][:200], at=o['loc'], job=o['job'], status=o['status'])
                for o in all_obs if o['kind'] == 'property'][:12]
     if not samples:
@@ -243,9 +261,11 @@ def write_evidence(pid, tier, seed, results, all_obs, bounded, known_hits, viola
             samples=samples,
             functions_under_contract=funcs,
             obligations_list=obs_out,
+            support_obligations_summary=support_out,
             property_obligations=sum(1 for o in all_obs if o['kind'] == 'property'),
             support_obligations=sum(1 for o in all_obs if o['kind'] == 'support'),
-            bounded=[dict(name=o.get('name'), status=o['status'], job=o['job'], what=o['description'][:160]) for o in bounded],
+            bounded=bounded_out,
+            bounded_obligations=len(bounded),
             conformance_cases=conformance,
             known_findings_matched=[dict(obligation=o.get('name'), job=o['job'], what=k['what']) for k, o in known_hits],
             jobs=[dict(job=r['job'], backend=r['backend'], status=r['status'], secs=round(r.get('secs', 0), 1),
